@@ -322,11 +322,16 @@ class CompRunner:
             return execute.explore(once, assumptions, max_paths=max_paths)
 
     def _swap_sparse_only(self):
+        """fresh-problem state: sparse constants lifted, mutable float work arrays become object arrays holding
+        their current concrete values (so that symbolic values can be stored into them)"""
         saved = {}
         for a, v in list(vars(self.comp).items()):
             if sp.issparse(v):
                 saved[a] = v
                 setattr(self.comp, a, to_symmatrix(v))
+            elif a in self.mutable and isinstance(v, np.ndarray) and v.dtype.kind in "fc":
+                saved[a] = v
+                setattr(self.comp, a, np.array(v.real, dtype=object))
         return saved, {}
 
     # -------------------------------------------------------------------------------- dense Jacobian
